@@ -8,6 +8,7 @@ function is re-executed from the start along it. Execution is deterministic give
 """
 from __future__ import annotations
 
+import os, sys, time
 import z3
 
 from .values import HObj, HList, HDict, HArr, VRef
@@ -40,6 +41,36 @@ class Obligation:
         self.model = None
         self.solver = None
         self.seconds = 0.0
+
+
+_SYM_CACHE: dict = {}
+
+
+def symbols_of(t) -> frozenset:
+    """names of the uninterpreted constants / functions (recursive definitions included) occurring in a term; cached per term"""
+    key = t.get_id()
+    hit = _SYM_CACHE.get(key)
+    if hit is not None and hit[0].eq(t):
+        return hit[1]
+    out, stack, seen = set(), [t], set()
+    while stack:
+        x = stack.pop()
+        i = x.get_id()
+        if i in seen:
+            continue
+        seen.add(i)
+        if z3.is_app(x):
+            d = x.decl()
+            if d.kind() in (z3.Z3_OP_UNINTERPRETED, z3.Z3_OP_RECURSIVE):
+                out.add(d.name())
+            stack.extend(x.children())
+        elif z3.is_quantifier(x):
+            stack.append(x.body())
+    r = frozenset(out)
+    if len(_SYM_CACHE) > 200000:
+        _SYM_CACHE.clear()
+    _SYM_CACHE[key] = (t, r)
+    return r
 
 
 class State:
@@ -105,13 +136,48 @@ class State:
         self.solver.add(c)
 
     def feasible(self, c) -> bool:
+        """Is pc /\ c satisfiable?  Decided on the CONE OF INFLUENCE of c: the conjuncts of pc that (transitively) share an
+        uninterpreted symbol with c. The remaining conjuncts share no symbol with the cone, so (pc being satisfiable by construction)
+        sat(cone /\ c) <=> sat(pc /\ c); if pc itself were unsatisfiable the answer errs towards feasible. unsat(cone /\ c) always
+        implies unsat(pc /\ c), so a branch is only ever pruned soundly. unknown counts as feasible (explores more, never less)."""
         if isinstance(c, bool):
             return c
         self.feas_checks += 1
-        self.solver.push()
-        self.solver.add(c)
-        r = self.solver.check()
-        self.solver.pop()
+        t0 = time.time()
+        if os.environ.get("PYVC_FEAS_FULL"):
+            self.solver.push()
+            self.solver.add(c)
+            r = self.solver.check()
+            self.solver.pop()
+        else:
+            cone = symbols_of(c)
+            if not cone:
+                r = z3.unsat if z3.is_false(z3.simplify(c)) else z3.sat
+                return r != z3.unsat
+            rest = [(symbols_of(x), x) for x in self.pc if isinstance(x, z3.ExprRef)]
+            chosen = []
+            grew = True
+            while grew and rest:
+                grew = False
+                keep = []
+                for sy, x in rest:
+                    if sy & cone:
+                        chosen.append(x)
+                        if not sy <= cone:
+                            cone = cone | sy
+                        grew = True
+                    else:
+                        keep.append((sy, x))
+                rest = keep
+            if not chosen and z3.is_app(c) and (z3.is_const(c) or (z3.is_not(c) and z3.is_const(c.arg(0)))):
+                return True                 # a fresh propositional symbol (or its negation) constrains nothing already assumed
+            sv = z3.Solver()
+            sv.set("timeout", self.FEAS_TIMEOUT_MS)
+            sv.add(*chosen)
+            sv.add(c)
+            r = sv.check()
+        if os.environ.get("PYVC_TRACE_FEAS") and time.time() - t0 > 1.0:
+            print(f"[feas] {time.time() - t0:.1f}s {r} pc={len(self.pc)} cond={str(c)[:300]}", file=sys.stderr)
         return r != z3.unsat           # unknown counts as feasible (explores more, never less)
 
     def choose(self, conds) -> int:
